@@ -363,6 +363,7 @@ fn key_with_tag(r: &[u8; 16], m: &[u8], target: u128) -> [u8; 32] {
 }
 
 pub const C07: Registry = &[
+    ("generichash_defaults_key_container", generichash_defaults_key_container),
     ("onetimeauth_verify_chosen_tag", onetimeauth_verify_chosen_tag),
     ("generichash", generichash),
     ("generichash_object", generichash_object),
@@ -410,6 +411,15 @@ fn adversarial_poly_keys(rng: &mut Rng) -> Vec<[u8; 32]> {
 }
 
 pub fn c07(ctx: &mut Ctx) -> Search {
+    // keyed default-length hasher of the object API (key in a Vec / slice of 16, 32, 64 bytes), short and block-sized messages
+    {
+        let lens = [0usize, 1, 64, 128, 129];
+        for (j, kl) in [16usize, 32, 64].iter().enumerate() {
+            let key = ctx.rng.bytes(*kl);
+            let m = ctx.rng.bytes(lens[j % lens.len()] + j);
+            ctx.run("generichash_defaults_key_container", Input::new().b("key", &key).b("m", &m))?;
+        }
+    }
     let t = ctx.thorough;
 
     // ---- generichash: outlen x key length x input length
